@@ -193,7 +193,64 @@ def r16_4(ctx):
                 r.ok({what: "preceded by a length fix-up", "site": e.where(sb)})
             else:
                 r.violate(ENC, "fixup:%s" % what, e.where(sb), "%s is computed without a preceding length fix-up" % what)
+    # RFC 5389 15.4 / 15.5: the header length the HMAC / CRC is computed over is "everything so far plus this
+    # attribute": (current buffer length - 20) + 24 for MESSAGE-INTEGRITY, + 8 for FINGERPRINT - with the buffer
+    # length read inside the respective branch (i.e. after whatever was appended before).
+    for what, sites, extra in (("MESSAGE-INTEGRITY", mi, 24), ("FINGERPRINT", fp, 8)):
+        for sb in sites:
+            wl = [bi for bi, t, p in core.calls_to(e, suffix("stun::write_length_field")) if sb in core.reach_from(e, bi)]
+            cand = [bi for bi in wl if core.must_pass(e, sb, [bi])]
+            if not cand:
+                r.violate(ENC, "len:%s" % what, e.where(sb), "no write_length_field call dominates the %s computation" % what)
+                continue
+            lb = max(cand)          # the last one before the digest
+            arg = e.term_operand(e.blocks[lb]["t"]["a"][1])
+            shape = arg[0] == "bin" and arg[1] == "Add" and mir.int_value(arg[3]) == extra and \
+                arg[2][0] == "bin" and arg[2][1] == "Sub" and mir.int_value(arg[2][3]) == 20 and \
+                arg[2][2][0] == "call" and arg[2][2][1].endswith("::len")
+            # the len() it uses is read inside the branch: every path to that len() call passes the branch edge,
+            # i.e. the call is not reachable once the blocks before the digest's branch are cut at the branch switch
+            lens = [bi for bi, t, p in core.calls_to(e, suffix("Vec::<T, A>::len")) if lb in core.reach_from(e, bi)]
+            fresh = False
+            if shape and lens:
+                ln = max(lens)
+                prev_appends = [bi for bi, t, p in core.calls_to(e, suffix("stun::append_raw_attribute", "stun::append_attribute"))
+                                if ln in core.reach_from(e, bi)]
+                # no append between the len() read and the digest
+                between = [bi for bi, t, p in core.calls_to(e, suffix("stun::append_raw_attribute", "stun::append_attribute"))
+                           if bi in core.reach_from(e, ln) and sb in core.reach_from(e, bi)]
+                fresh = not between and _root_is(e, e.blocks[lb]["t"]["a"][1], ln)
+            if shape and fresh:
+                r.ok({what: "length = (buffer.len() - 20) + %d, buffer.len() read after the previous append" % extra, "site": e.where(lb)})
+            else:
+                r.violate(ENC, "len:%s" % what, e.where(lb),
+                          "the header length the %s is computed over is %s, not (current buffer length - 20) + %d" %
+                          (what, mir.show(arg, 90), extra))
     return r
+
+
+def _root_is(b, op, len_block, hops=8):
+    """the operand is computed (through Add/Sub of constants and copies) from the result of the len() call in len_block"""
+    if op.get("k") not in ("cp", "mv"):
+        return False
+    l = op["p"]["l"]
+    for _ in range(hops):
+        ds = b.defs().get(l, [])
+        if len(ds) != 1:
+            return False
+        d = ds[0]
+        if d[0] == "t":
+            return d[1] == len_block
+        rv = b.blocks[d[1]]["s"][d[2]]["rv"]
+        nxt = None
+        if rv["r"] == "use" and rv["o"].get("k") in ("cp", "mv"):
+            nxt = rv["o"]["p"]["l"]
+        elif rv["r"] == "bin" and rv["a"].get("k") in ("cp", "mv"):
+            nxt = rv["a"]["p"]["l"]
+        if nxt is None:
+            return False
+        l = nxt
+    return False
 
 
 def r16_5(ctx):
